@@ -21,6 +21,7 @@ RULE = (
     "row permutations (thorough; a sample in quick). Judged per (group, metric) with at least one finite value; across-groups "
     "only when every (group, metric) has one. Non-trivial = table with at least one missing and one finite cell; distinct = "
     "hash of the table."
+    ' Further: read accessors before the summaries; tables with non-ASCII names loaded in an interpreter whose locale encoding is ASCII.'
 )
 ASSUMPTIONS = ["float comparison: relative 1e-9 (std: absolute 1e-9 x largest magnitude)", "subject names unique, group names without '-' (C18 covers names)"]
 MINIMUM = {"C20.summaries_judged": 3000, "C20.subject_lookups_judged": 1000, "C20.across_groups_judged": 100, "C20.permutations_judged": 200}
